@@ -187,3 +187,627 @@ Proof.
   - intros H. inversion H as [|? ? _ H2]; subst. inversion H2 as [|? ? H3 _]; subst.
     specialize (H3 eq_refl). vm_compute in H3. discriminate.
 Qed.
+
+(* ------------------------------------------------------------------ *)
+(* Part B: threshold                                                   *)
+(* ------------------------------------------------------------------ *)
+
+Lemma si_tail x r : strictly_increasing (x :: r) -> strictly_increasing r.
+Proof. simpl. tauto. Qed.
+
+Lemma si_Forall r : forall x, strictly_increasing (x :: r) -> Forall (fun z => x < z) r.
+Proof.
+  induction r as [|y r IH]; intros x H; [constructor|].
+  destruct H as [H1 H2]. constructor; [assumption|].
+  eapply Forall_impl'; [|apply (IH y H2)]. intros z Hz; simpl in Hz. lia.
+Qed.
+
+Lemma canon_In A : forall lo iv, canon lo A -> In iv A -> lo < fst iv.
+Proof.
+  induction A as [|[s e] r IH]; intros lo iv H Hin; [destruct Hin|].
+  destruct H as (H1 & H2 & H3). destruct Hin as [<-|Hin]; [simpl; lia|].
+  specialize (IH e iv H3 Hin). lia.
+Qed.
+
+(* --- advance --- *)
+Lemma advance_cons x s e r :
+  advance x ((s, e) :: r) =
+  match r with [] => (s, e) :: r | _ :: _ => if e <? x then advance x r else (s, e) :: r end.
+Proof. destruct r; reflexivity. Qed.
+
+Lemma advance_id x s e r : x <= e -> advance x ((s, e) :: r) = (s, e) :: r.
+Proof.
+  intros H. rewrite advance_cons. destruct r; [reflexivity|].
+  destruct (e <? x) eqn:E; [lia|reflexivity].
+Qed.
+
+Lemma advance_canon x ep : forall lo, canon lo ep -> canon lo (advance x ep).
+Proof.
+  induction ep as [|[s e] r IH]; intros lo H; [exact H|].
+  rewrite advance_cons. destruct r as [|i r']; [exact H|].
+  destruct (e <? x); [|exact H]. destruct H as (H1 & H2 & H3).
+  apply (canon_weaken _ e lo); [lia|]. apply IH. exact H3.
+Qed.
+
+Lemma advance_canonical x ep : canonical ep -> canonical (advance x ep).
+Proof.
+  intros H. destruct (canonical_canon _ H) as [lo Hlo].
+  eapply canon_canonical. apply advance_canon. exact Hlo.
+Qed.
+
+Lemma advance_incl x ep : forall iv, In iv (advance x ep) -> In iv ep.
+Proof.
+  induction ep as [|[s e] r IH]; intros iv H; [exact H|].
+  rewrite advance_cons in H. destruct r as [|i r']; [exact H|].
+  destruct (e <? x); [right; apply IH; exact H|exact H].
+Qed.
+
+Lemma advance_mem x ep : forall z, x <= z -> mem z ep = true -> mem z (advance x ep) = true.
+Proof.
+  induction ep as [|[s e] r IH]; intros z Hz H; [exact H|].
+  rewrite advance_cons. destruct r as [|i r']; [exact H|].
+  destruct (e <? x) eqn:E; [|exact H]. apply IH; [lia|].
+  rewrite mem_cons in H. unfold inb in H; cbn [fst snd] in H.
+  destruct (mem z (i :: r')); [reflexivity|lia].
+Qed.
+
+Lemma advance_keep x ep : forall iv, In iv ep -> x <= snd iv -> In iv (advance x ep).
+Proof.
+  induction ep as [|[s e] r IH]; intros iv H Hx; [exact H|].
+  rewrite advance_cons. destruct r as [|i r']; [exact H|].
+  destruct (e <? x) eqn:E; [|exact H].
+  destruct H as [H|H]; [subst iv; cbn [snd] in Hx; lia|apply IH; assumption].
+Qed.
+
+Lemma advance_spec x ep : forall lo, canon lo ep -> mem x ep = true ->
+  exists s e rest, advance x ep = (s, e) :: rest /\ s <= x <= e /\ lo < s.
+Proof.
+  induction ep as [|[s1 e1] r IH]; intros lo Hc Hm; [discriminate|].
+  destruct Hc as (H1 & H2 & H3). rewrite advance_cons.
+  rewrite mem_cons in Hm. unfold inb in Hm; cbn [fst snd] in Hm.
+  destruct r as [|i r'].
+  - exists s1, e1, []. cbn [mem existsb] in Hm. split; [reflexivity|]. lia.
+  - destruct (e1 <? x) eqn:E.
+    + assert (Hm' : mem x (i :: r') = true) by (destruct (mem x (i :: r')); [reflexivity|lia]).
+      destruct (IH e1 H3 Hm') as (s & e & rest & Ha & Hb & Hc).
+      exists s, e, rest. split; [exact Ha|]. lia.
+    + rewrite (mem_below _ e1 x H3) in Hm by lia.
+      exists s1, e1, (i :: r'). split; [reflexivity|]. lia.
+Qed.
+
+(* --- the state invariant of the kernel's loop --- *)
+Definition prev_ok (prev : option (Z * bool)) (ep : iset) (l : list (Z * bool)) : Prop :=
+  match prev with
+  | None => True
+  | Some (p, _) => inb p (hd (0, 0) ep) = true /\
+                   match l with [] => True | (x, _) :: _ => p < x end
+  end.
+
+Definition Inv (prev : option (Z * bool)) (ep : iset) (l : list (Z * bool)) : Prop :=
+  canonical ep /\ strictly_increasing (map fst l) /\
+  Forall (fun x => mem x ep = true) (map fst l) /\ prev_ok prev ep l.
+
+Lemma Inv_cons prev ep x kx r : Inv prev ep ((x, kx) :: r) ->
+  exists s0 e0 rest0 s e rest,
+    ep = (s0, e0) :: rest0 /\ advance x ep = (s, e) :: rest /\
+    s <= x <= e /\ s < e /\ s0 <= s /\ (e0 < x -> e0 < s) /\ (x <= e0 -> s = s0 /\ e = e0) /\
+    (forall iv, In iv ((s, e) :: rest) -> In iv ep) /\
+    Inv (Some (x, kx)) ((s, e) :: rest) r.
+Proof.
+  intros (Hc & Hsi & Hmem & Hp). cbn [map fst] in Hsi, Hmem.
+  inversion Hmem as [|? ? Hx Hmem']; subst.
+  destruct ep as [|[s0 e0] rest0]; [discriminate|].
+  assert (Hfacts : exists s e rest, advance x ((s0, e0) :: rest0) = (s, e) :: rest /\
+            s <= x <= e /\ s0 <= s /\ (e0 < x -> e0 < s) /\ (x <= e0 -> s = s0 /\ e = e0)).
+  { pose proof (canonical_canon_tail _ _ _ Hc) as Ht.
+    assert (Hse0 : s0 < e0) by (simpl in Hc; tauto).
+    destruct (Z_le_gt_dec x e0) as [Hle|Hgt].
+    - exists s0, e0, rest0. rewrite advance_id by assumption. split; [reflexivity|].
+      rewrite mem_cons in Hx. unfold inb in Hx; cbn [fst snd] in Hx.
+      rewrite (mem_below _ e0 x Ht) in Hx by lia. lia.
+    - rewrite mem_cons in Hx. unfold inb in Hx; cbn [fst snd] in Hx.
+      assert (Hm' : mem x rest0 = true) by (destruct (mem x rest0); [reflexivity|lia]).
+      destruct (advance_spec x rest0 e0 Ht Hm') as (s & e & rest & Ha & Hb & Hlo).
+      exists s, e, rest. rewrite advance_cons.
+      destruct rest0 as [|i r']; [discriminate|].
+      destruct (e0 <? x) eqn:E; [|lia]. split; [exact Ha|]. lia. }
+  destruct Hfacts as (s & e & rest & Hadv & Hb & F1 & F2 & F3).
+  pose proof (advance_canonical x _ Hc) as Hc'. rewrite Hadv in Hc'.
+  exists s0, e0, rest0, s, e, rest.
+  split; [reflexivity|]. split; [exact Hadv|]. split; [exact Hb|].
+  split; [simpl in Hc'; tauto|]. split; [exact F1|]. split; [exact F2|]. split; [exact F3|].
+  split; [intros iv Hin; rewrite <- Hadv in Hin; eapply advance_incl; exact Hin|].
+  split; [exact Hc'|]. split; [eapply si_tail; exact Hsi|]. split.
+  - pose proof (si_Forall _ _ Hsi) as Hlt. rewrite <- Hadv.
+    rewrite Forall_forall in *. intros z Hz. apply advance_mem; [|auto].
+    specialize (Hlt z Hz). simpl in Hlt. lia.
+  - unfold prev_ok. cbn [hd]. unfold inb; cbn [fst snd]. split; [lia|].
+    destruct r as [|[y ky] r']; [exact I|]. simpl in Hsi. lia.
+Qed.
+
+(* --- a single-list reformulation of thr_go: [cur] is the start of the open run --- *)
+Definition firstb (prev : option (Z * bool)) (s : Z) : bool :=
+  match prev with None => true | Some (p, _) => p <? s end.
+Definition lastb (r : list (Z * bool)) (e : Z) : bool :=
+  match r with [] => true | (y, _) :: _ => e <? y end.
+Definition prevk (prev : option (Z * bool)) : bool :=
+  match prev with Some (_, b) => b | None => false end.
+Definition nextk (r : list (Z * bool)) : bool :=
+  match r with (_, b) :: _ => b | [] => false end.
+Definition startv (prev : option (Z * bool)) (r : list (Z * bool)) (x s e : Z) : Z :=
+  if negb (firstb prev s) then x + match prev with Some (p, _) => p | None => x end
+  else if lastb r e then 2 * s else 2 * x.
+Definition endv (prev : option (Z * bool)) (r : list (Z * bool)) (x s e : Z) : Z :=
+  if negb (lastb r e) then x + match r with (y, _) :: _ => y | [] => x end
+  else if firstb prev s then 2 * e else 2 * x.
+
+Fixpoint thr_iv (cur : option Z) (prev : option (Z * bool)) (ep : iset) (l : list (Z * bool)) : iset :=
+  match l with
+  | [] => []
+  | (x, kx) :: r =>
+      let ep' := advance x ep in
+      let s := fst (hd (0, 0) ep') in
+      let e := snd (hd (0, 0) ep') in
+      if kx then
+        let st := match cur with Some c => c | None => startv prev r x s e end in
+        if lastb r e || negb (nextk r)
+        then (st, endv prev r x s e) :: thr_iv None (Some (x, kx)) ep' r
+        else thr_iv (Some st) (Some (x, kx)) ep' r
+      else thr_iv None (Some (x, kx)) ep' r
+  end.
+
+Lemma thr_iv_step cur prev ep x kx r s e rest : advance x ep = (s, e) :: rest ->
+  thr_iv cur prev ep ((x, kx) :: r) =
+  if kx then
+    if lastb r e || negb (nextk r)
+    then (match cur with Some c => c | None => startv prev r x s e end, endv prev r x s e)
+           :: thr_iv None (Some (x, kx)) ((s, e) :: rest) r
+    else thr_iv (Some (match cur with Some c => c | None => startv prev r x s e end))
+           (Some (x, kx)) ((s, e) :: rest) r
+  else thr_iv None (Some (x, kx)) ((s, e) :: rest) r.
+Proof. intros H. cbn [thr_iv]. rewrite H. reflexivity. Qed.
+
+Lemma thr_go_step prev ep x kx r s e rest : advance x ep = (s, e) :: rest ->
+  thr_go prev ep ((x, kx) :: r) =
+  let '(SS, EE) := thr_go (Some (x, kx)) ((s, e) :: rest) r in
+  if kx then
+    ((if firstb prev s || negb (prevk prev) then [startv prev r x s e] else []) ++ SS,
+     (if lastb r e || negb (nextk r) then [endv prev r x s e] else []) ++ EE)
+  else (SS, EE).
+Proof. intros H. cbn [thr_go]. rewrite H. reflexivity. Qed.
+
+Ltac brk :=
+  repeat match goal with
+  | |- context [?a <? ?b] =>
+      let E := fresh "E" in destruct (a <? b) eqn:E; [apply Z.ltb_lt in E|apply Z.ltb_ge in E]
+  | H : context [?a <? ?b] |- _ =>
+      let E := fresh "E" in destruct (a <? b) eqn:E; [apply Z.ltb_lt in E|apply Z.ltb_ge in E]
+  end; cbn [negb orb andb] in *.
+
+(* "a run is open on entry": the previous sample is kept, in the same epoch, and the current one is kept *)
+Definition opn (prev : option (Z * bool)) (ep : iset) (l : list (Z * bool)) : bool :=
+  match l with
+  | (x, true) :: _ => prevk prev && negb (firstb prev (fst (hd (0, 0) (advance x ep))))
+  | _ => false
+  end.
+
+Lemma opn_next x s e rest r : Inv (Some (x, true)) ((s, e) :: rest) r ->
+  opn (Some (x, true)) ((s, e) :: rest) r = negb (lastb r e || negb (nextk r)).
+Proof.
+  intros HI. destruct r as [|[y [|]] r'];
+    [reflexivity| |unfold opn, nextk; cbn [negb]; rewrite orb_true_r; reflexivity].
+  destruct (Inv_cons _ _ _ _ _ HI) as (s0 & e0 & rest0 & s' & e' & rest' & Hep & Hadv & Hx & Hse & Hs0 & Hmov & Hstay & _).
+  injection Hep as <- <- <-.
+  destruct HI as (_ & _ & _ & [Hp _]). unfold inb in Hp; cbn [hd fst snd] in Hp.
+  unfold opn. rewrite Hadv. cbn [hd fst prevk firstb lastb nextk andb negb].
+  rewrite orb_false_r. f_equal.
+  destruct (x <? s') eqn:E1, (e <? y) eqn:E2; try reflexivity; lia.
+Qed.
+
+Lemma thr_go_iv l : forall prev ep, Inv prev ep l ->
+  (opn prev ep l = false ->
+     combine (fst (thr_go prev ep l)) (snd (thr_go prev ep l)) = thr_iv None prev ep l) /\
+  (opn prev ep l = true -> forall c,
+     combine (c :: fst (thr_go prev ep l)) (snd (thr_go prev ep l)) = thr_iv (Some c) prev ep l).
+Proof.
+  induction l as [|[x kx] r IH]; intros prev ep HI.
+  - split; [reflexivity|discriminate].
+  - destruct (Inv_cons _ _ _ _ _ HI) as (s0 & e0 & rest0 & s & e & rest & Hep & Hadv & Hx & Hse & Hs0 & Hmov & Hstay & Hincl & HI').
+    rewrite (thr_go_step _ _ _ _ _ _ _ _ Hadv).
+    destruct (IH _ _ HI') as [IHc IHo].
+    destruct (thr_go (Some (x, kx)) ((s, e) :: rest) r) as [SS EE] eqn:Hrec.
+    cbn [fst snd] in IHc, IHo.
+    unfold opn. rewrite Hadv. cbn [hd fst].
+    destruct kx.
+    + pose proof (opn_next _ _ _ _ _ HI') as Hn.
+      destruct (lastb r e || negb (nextk r)) eqn:Hclose; cbn [negb] in Hn;
+      destruct (prevk prev), (firstb prev s); cbn [andb orb negb app fst snd];
+      (split; intros Hd; try discriminate Hd; try intros c);
+      rewrite (thr_iv_step _ _ _ _ _ _ _ _ _ Hadv), Hclose;
+      first [ cbn [combine]; f_equal; apply IHc; exact Hn | apply IHo; exact Hn ].
+    + split; [intros _|discriminate].
+      rewrite (thr_iv_step _ _ _ _ _ _ _ _ _ Hadv). apply IHc.
+      destruct r as [|[y [|]] r']; reflexivity.
+Qed.
+
+Lemma threshold_support_iv ep l :
+  canonical ep -> strictly_increasing (map fst l) ->
+  Forall (fun x => mem x ep = true) (map fst l) ->
+  Inv None ep l /\ threshold_support ep l = thr_iv None None ep l.
+Proof.
+  intros H1 H2 H3.
+  assert (HI : Inv None ep l) by (repeat split; assumption).
+  split; [exact HI|].
+  destruct (thr_go_iv l None ep HI) as [Hc _].
+  unfold threshold_support. destruct (thr_go None ep l) as [SS EE].
+  apply Hc. destruct l as [|[x [|]] r]; reflexivity.
+Qed.
+
+(* --- canonicity --- *)
+Definition lo_ok (lo : Z) (prev : option (Z * bool)) (ep : iset) (x : Z) (kx : bool) : Prop :=
+  lo < 2 * fst (hd (0, 0) ep) \/
+  (lo <= 2 * snd (hd (0, 0) ep) /\ snd (hd (0, 0) ep) < x) \/
+  (kx = false /\ lo <= 2 * x) \/
+  match prev with
+  | Some (p, _) => lo < x + p /\ x <= snd (hd (0, 0) ep)
+  | None => False
+  end.
+
+(* the open run started at c, in the epoch at the head of ep, which also contains the current sample *)
+Definition cur_inv (c : Z) (ep : iset) (l : list (Z * bool)) : Prop :=
+  match l with
+  | (x, true) :: _ => 2 * fst (hd (0, 0) ep) <= c /\ c < 2 * x /\ x <= snd (hd (0, 0) ep)
+  | _ => False
+  end.
+
+Definition entry_ok (lo : Z) (cur : option Z) prev ep (l : list (Z * bool)) : Prop :=
+  match cur with
+  | Some c => cur_inv c ep l /\ lo < c
+  | None => match l with [] => True | (x, kx) :: _ => lo_ok lo prev ep x kx end
+  end.
+
+Definition cur_ok' (cur : option Z) (ep : iset) (l : list (Z * bool)) : Prop :=
+  match cur with Some c => cur_inv c ep l | None => True end.
+
+Ltac crush :=
+  unfold cur_ok', startv, endv, firstb, lastb, nextk, prevk, entry_ok, lo_ok, cur_inv, prev_ok, inb in *;
+  cbn [hd fst snd negb orb andb] in *; brk; try exact I; try lia.
+
+Lemma thr_iv_canon l : forall cur prev ep lo,
+  Inv prev ep l -> entry_ok lo cur prev ep l -> canon lo (thr_iv cur prev ep l).
+Proof.
+  induction l as [|[x kx] r IH]; intros cur prev ep lo HI Hlo; [exact I|].
+  destruct (Inv_cons _ _ _ _ _ HI) as (s0 & e0 & rest0 & s & e & rest & Hep & Hadv & Hx & Hse & Hs0 & Hmov & Hstay & Hincl & HI').
+  rewrite (thr_iv_step _ _ _ _ _ _ _ _ _ Hadv).
+  destruct HI as (_ & _ & _ & Hp). pose proof HI' as (_ & _ & _ & Hp').
+  subst ep. clear Hincl Hadv.
+  destruct kx.
+  - destruct (lastb r e || negb (nextk r)) eqn:Hclose.
+    + cbn [canon]. split; [|split]; [| |apply IH; [exact HI'|]]; clear IH HI';
+      destruct cur as [c|], prev as [[p pb]|], r as [|[y [|]] r']; crush.
+    + apply IH; [exact HI'|]. clear IH HI'.
+      destruct cur as [c|], prev as [[p pb]|], r as [|[y [|]] r']; crush.
+  - apply IH; [exact HI'|]. clear IH HI'.
+    destruct cur as [c|], prev as [[p pb]|], r as [|[y [|]] r']; crush.
+Qed.
+
+
+(* --- kept samples are inside --- *)
+Lemma thr_iv_open_mem l : forall c prev ep t,
+  Inv prev ep l -> cur_inv c ep l ->
+  match l with (x, _) :: _ => c <= t <= 2 * x | [] => False end ->
+  mem t (thr_iv (Some c) prev ep l) = true.
+Proof.
+  induction l as [|[x kx] r IH]; intros c prev ep t HI Hc Ht; [destruct Ht|].
+  destruct (Inv_cons _ _ _ _ _ HI) as (s0 & e0 & rest0 & s & e & rest & Hep & Hadv & Hx & Hse & Hs0 & Hmov & Hstay & Hincl & HI').
+  rewrite (thr_iv_step _ _ _ _ _ _ _ _ _ Hadv).
+  destruct HI as (_ & _ & _ & Hp). pose proof HI' as (_ & _ & _ & Hp').
+  subst ep. clear Hincl Hadv.
+  destruct kx; [|destruct Hc].
+  destruct (lastb r e || negb (nextk r)) eqn:Hclose.
+  - rewrite mem_cons. apply orb_true_iff. left. clear IH HI'.
+    destruct prev as [[p pb]|], r as [|[y [|]] r']; crush.
+  - apply IH; [exact HI'| |]; clear IH HI';
+    destruct prev as [[p pb]|], r as [|[y [|]] r']; crush.
+Qed.
+
+Lemma thr_iv_contains l : forall cur prev ep,
+  Inv prev ep l -> cur_ok' cur ep l ->
+  Forall (fun z => mem (2 * z) (thr_iv cur prev ep l) = true) (kept_times l).
+Proof.
+  unfold kept_times.
+  induction l as [|[x kx] r IH]; intros cur prev ep HI Hc; [constructor|].
+  destruct (Inv_cons _ _ _ _ _ HI) as (s0 & e0 & rest0 & s & e & rest & Hep & Hadv & Hx & Hse & Hs0 & Hmov & Hstay & Hincl & HI').
+  rewrite (thr_iv_step _ _ _ _ _ _ _ _ _ Hadv).
+  destruct HI as (_ & _ & _ & Hp). pose proof HI' as (_ & _ & _ & Hp').
+  subst ep. clear Hincl Hadv. unfold cur_ok' in Hc.
+  cbn [filter snd]. destruct kx; cbn [map fst].
+  - destruct (lastb r e || negb (nextk r)) eqn:Hclose.
+    + constructor.
+      * rewrite mem_cons. apply orb_true_iff. left. clear IH HI'.
+        destruct cur as [c|], prev as [[p pb]|], r as [|[y [|]] r']; crush.
+      * eapply Forall_impl'; [|apply (IH None _ _ HI' I)].
+        intros z Hz. cbv beta in Hz. rewrite mem_cons, Hz. apply orb_true_r.
+    + assert (Hc' : cur_inv (match cur with Some c => c | None => startv prev r x s e end)
+                      ((s, e) :: rest) r).
+      { clear IH HI'. destruct cur as [c|], prev as [[p pb]|], r as [|[y [|]] r']; crush. }
+      constructor.
+      * apply thr_iv_open_mem; [exact HI'|exact Hc'|]. clear IH HI' Hc'.
+        destruct cur as [c|], prev as [[p pb]|], r as [|[y [|]] r']; crush.
+      * apply IH; [exact HI'|exact Hc'].
+  - apply IH; [exact HI'|exact I].
+Qed.
+
+(* --- rejected samples are outside --- *)
+Lemma si_head_le (y : Z) (ky : bool) (r' : list (Z * bool)) (z : Z) (kz : bool) :
+  strictly_increasing (map fst ((y, ky) :: r')) -> In (z, kz) ((y, ky) :: r') -> y <= z.
+Proof.
+  intros Hs [Hin|Hin]; [inversion Hin; subst; lia|].
+  pose proof (si_Forall _ _ Hs) as HF. rewrite Forall_forall in HF.
+  assert (y < z); [|lia]. apply HF. apply in_map_iff. exists (z, kz). auto.
+Qed.
+
+Lemma thr_iv_excludes l : forall cur prev ep,
+  Inv prev ep l -> cur_ok' cur ep l ->
+  Forall (fun q => snd q = false -> mem (2 * fst q) (thr_iv cur prev ep l) = false) l.
+Proof.
+  induction l as [|[x kx] r IH]; intros cur prev ep HI Hc; [constructor|].
+  destruct (Inv_cons _ _ _ _ _ HI) as (s0 & e0 & rest0 & s & e & rest & Hep & Hadv & Hx & Hse & Hs0 & Hmov & Hstay & Hincl & HI').
+  rewrite (thr_iv_step _ _ _ _ _ _ _ _ _ Hadv).
+  destruct HI as (_ & _ & _ & Hp). pose proof HI' as (_ & Hsi' & _ & Hp').
+  subst ep. clear Hincl Hadv. unfold cur_ok' in Hc.
+  destruct kx.
+  - constructor; [cbn [snd]; discriminate|].
+    destruct (lastb r e || negb (nextk r)) eqn:Hclose.
+    + pose proof (IH None _ _ HI' I) as HI0.
+      rewrite Forall_forall in HI0 |- *. intros [z kz] Hin Hk.
+      rewrite mem_cons, (HI0 _ Hin Hk), orb_false_r. cbn [fst].
+      destruct r as [|[y ky] r']; [destruct Hin|].
+      pose proof (si_head_le _ _ _ _ _ Hsi' Hin) as Hyz.
+      clear IH HI' HI0 Hin.
+      destruct cur as [c|], prev as [[p pb]|], ky; crush.
+    + apply IH; [exact HI'|]. clear IH HI'.
+      destruct cur as [c|], prev as [[p pb]|], r as [|[y [|]] r']; crush.
+  - constructor; [|apply IH; [exact HI'|exact I]].
+    intros _. cbn [fst].
+    apply (mem_below _ (2 * x)); [|lia].
+    apply thr_iv_canon; [exact HI'|]. clear IH HI'.
+    destruct r as [|[y ky] r']; crush.
+Qed.
+
+(* --- new intervals stay inside single old intervals --- *)
+Lemma thr_iv_inside l : forall cur prev ep,
+  Inv prev ep l -> cur_ok' cur ep l ->
+  Forall (fun iv => exists old, In old ep /\ 2 * fst old <= fst iv /\ snd iv <= 2 * snd old)
+         (thr_iv cur prev ep l).
+Proof.
+  induction l as [|[x kx] r IH]; intros cur prev ep HI Hc; [constructor|].
+  destruct (Inv_cons _ _ _ _ _ HI) as (s0 & e0 & rest0 & s & e & rest & Hep & Hadv & Hx & Hse & Hs0 & Hmov & Hstay & Hincl & HI').
+  rewrite (thr_iv_step _ _ _ _ _ _ _ _ _ Hadv).
+  destruct HI as (_ & _ & _ & Hp). pose proof HI' as (_ & _ & _ & Hp').
+  unfold cur_ok' in Hc.
+  assert (Hweak : forall c', cur_ok' c' ((s, e) :: rest) r ->
+     Forall (fun iv => exists old, In old ep /\ 2 * fst old <= fst iv /\ snd iv <= 2 * snd old)
+            (thr_iv c' (Some (x, kx)) ((s, e) :: rest) r)).
+  { intros c' Hc'. eapply Forall_impl'; [|apply (IH c' _ _ HI' Hc')].
+    intros iv (old & Hin & Hb). exists old. split; [apply Hincl; exact Hin|exact Hb]. }
+  destruct kx.
+  - destruct (lastb r e || negb (nextk r)) eqn:Hclose.
+    + constructor; [|apply Hweak; exact I].
+      exists (s, e). split; [apply Hincl; left; reflexivity|].
+      subst ep. clear IH HI' Hweak Hincl Hadv. cbn [fst snd].
+      destruct cur as [c|], prev as [[p pb]|], r as [|[y [|]] r']; crush.
+    + apply Hweak. subst ep. clear IH HI' Hweak Hincl Hadv. unfold cur_ok'.
+      destruct cur as [c|], prev as [[p pb]|], r as [|[y [|]] r']; crush.
+  - apply Hweak. exact I.
+Qed.
+
+(* --- midpoints --- *)
+Lemma thr_iv_cons cur prev ep x kx r :
+  thr_iv cur prev ep ((x, kx) :: r) =
+  let ep' := advance x ep in
+  let s := fst (hd (0, 0) ep') in
+  let e := snd (hd (0, 0) ep') in
+  if kx then
+    let st := match cur with Some c => c | None => startv prev r x s e end in
+    if lastb r e || negb (nextk r)
+    then (st, endv prev r x s e) :: thr_iv None (Some (x, kx)) ep' r
+    else thr_iv (Some st) (Some (x, kx)) ep' r
+  else thr_iv None (Some (x, kx)) ep' r.
+Proof. reflexivity. Qed.
+
+(* an open run's start is eventually emitted *)
+Lemma thr_iv_open_start r : forall c prev ep y,
+  In c (map fst (thr_iv (Some c) prev ep ((y, true) :: r))).
+Proof.
+  induction r as [|[y' ky'] r' IH]; intros c prev ep y; rewrite thr_iv_cons; cbv zeta.
+  - cbn [lastb orb map fst]. left. reflexivity.
+  - destruct (lastb ((y', ky') :: r') (snd (hd (0, 0) (advance y ep))) || negb (nextk ((y', ky') :: r'))) eqn:H.
+    + cbn [map fst]. left. reflexivity.
+    + destruct ky'.
+      * apply IH.
+      * cbn [nextk negb] in H. rewrite orb_true_r in H. discriminate.
+Qed.
+
+Lemma same_epoch s e rest iv x y :
+  canonical ((s, e) :: rest) -> In iv ((s, e) :: rest) -> s <= x <= e ->
+  inb x iv = true -> inb y iv = true -> y <= e.
+Proof.
+  intros Hc [<-|Hin] Hx Hxi Hyi; unfold inb in *; cbn [fst snd] in *; [lia|].
+  pose proof (canon_In _ _ _ (canonical_canon_tail _ _ _ Hc) Hin). lia.
+Qed.
+
+Lemma thr_iv_mid_end pre : forall cur prev ep x y post,
+  Inv prev ep (pre ++ (x, true) :: (y, false) :: post) ->
+  (exists iv, In iv ep /\ inb x iv = true /\ inb y iv = true) ->
+  In (x + y) (map snd (thr_iv cur prev ep (pre ++ (x, true) :: (y, false) :: post))).
+Proof.
+  induction pre as [|[z kz] pre IH]; intros cur prev ep x y post HI (iv & Hin & Hxi & Hyi);
+    cbn [app] in *.
+  - destruct (Inv_cons _ _ _ _ _ HI) as (s0 & e0 & rest0 & s & e & rest & Hep & Hadv & Hx & Hse & Hs0 & Hmov & Hstay & Hincl & HI').
+    rewrite (thr_iv_step _ _ _ _ _ _ _ _ _ Hadv).
+    assert (Hye : y <= e).
+    { destruct HI' as (Hc' & _). apply (same_epoch s e rest iv x y Hc'); try assumption.
+      rewrite <- Hadv. apply advance_keep; [exact Hin|]. unfold inb in Hxi. lia. }
+    cbn [nextk negb]. rewrite orb_true_r. cbn [map snd]. left.
+    unfold endv, lastb. destruct (e <? y) eqn:E; [lia|reflexivity].
+  - destruct (Inv_cons _ _ _ _ _ HI) as (s0 & e0 & rest0 & s & e & rest & Hep & Hadv & Hx & Hse & Hs0 & Hmov & Hstay & Hincl & HI').
+    rewrite (thr_iv_step _ _ _ _ _ _ _ _ _ Hadv).
+    assert (Hzx : z < x).
+    { destruct HI as (_ & Hsi & _). cbn [map fst] in Hsi.
+      pose proof (si_Forall _ _ Hsi) as HF. rewrite Forall_forall in HF. apply HF.
+      rewrite map_app. apply in_or_app. right. left. reflexivity. }
+    assert (Hrec : forall c', In (x + y) (map snd (thr_iv c' (Some (z, kz)) ((s, e) :: rest)
+                     (pre ++ (x, true) :: (y, false) :: post)))).
+    { intros c'. apply IH; [exact HI'|]. exists iv. split; [|split; assumption].
+      rewrite <- Hadv. apply advance_keep; [exact Hin|]. unfold inb in Hxi. lia. }
+    destruct kz; [|apply Hrec].
+    destruct (lastb _ e || negb (nextk _)); [cbn [map snd]; right|]; apply Hrec.
+Qed.
+
+Lemma thr_iv_mid_start pre : forall cur prev ep x y post,
+  Inv prev ep (pre ++ (x, false) :: (y, true) :: post) ->
+  (exists iv, In iv ep /\ inb x iv = true /\ inb y iv = true) ->
+  In (x + y) (map fst (thr_iv cur prev ep (pre ++ (x, false) :: (y, true) :: post))).
+Proof.
+  induction pre as [|[z kz] pre IH]; intros cur prev ep x y post HI (iv & Hin & Hxi & Hyi);
+    cbn [app] in *.
+  - destruct (Inv_cons _ _ _ _ _ HI) as (s0 & e0 & rest0 & s & e & rest & Hep & Hadv & Hx & Hse & Hs0 & Hmov & Hstay & Hincl & HI').
+    rewrite (thr_iv_step _ _ _ _ _ _ _ _ _ Hadv).
+    assert (Hye : y <= e).
+    { destruct HI' as (Hc' & _). apply (same_epoch s e rest iv x y Hc'); try assumption.
+      rewrite <- Hadv. apply advance_keep; [exact Hin|]. unfold inb in Hxi. lia. }
+    destruct (Inv_cons _ _ _ _ _ HI') as (s1 & e1 & rest1 & s' & e' & rest' & Hep' & Hadv' & Hy & Hse' & _ & _ & Hstay' & _ & HI'').
+    injection Hep' as <- <- <-. destruct (Hstay' Hye) as [-> ->].
+    rewrite (thr_iv_step _ _ _ _ _ _ _ _ _ Hadv').
+    assert (Hst : startv (Some (x, false)) post y s e = x + y).
+    { unfold startv, firstb. destruct (x <? s) eqn:E; [lia|]. cbn [negb]. lia. }
+    rewrite Hst.
+    destruct (lastb post e || negb (nextk post)) eqn:Hclose.
+    + cbn [map fst]. left. reflexivity.
+    + destruct post as [|[y' [|]] post'].
+      * discriminate Hclose.
+      * apply thr_iv_open_start.
+      * cbn [nextk negb] in Hclose. rewrite orb_true_r in Hclose. discriminate Hclose.
+  - destruct (Inv_cons _ _ _ _ _ HI) as (s0 & e0 & rest0 & s & e & rest & Hep & Hadv & Hx & Hse & Hs0 & Hmov & Hstay & Hincl & HI').
+    rewrite (thr_iv_step _ _ _ _ _ _ _ _ _ Hadv).
+    assert (Hzx : z < x).
+    { destruct HI as (_ & Hsi & _). cbn [map fst] in Hsi.
+      pose proof (si_Forall _ _ Hsi) as HF. rewrite Forall_forall in HF. apply HF.
+      rewrite map_app. apply in_or_app. right. left. reflexivity. }
+    assert (Hrec : forall c', In (x + y) (map fst (thr_iv c' (Some (z, kz)) ((s, e) :: rest)
+                     (pre ++ (x, false) :: (y, true) :: post)))).
+    { intros c'. apply IH; [exact HI'|]. exists iv. split; [|split; assumption].
+      rewrite <- Hadv. apply advance_keep; [exact Hin|]. unfold inb in Hxi. lia. }
+    destruct kz; [|apply Hrec].
+    destruct (lastb _ e || negb (nextk _)); [cbn [map fst]; right|]; apply Hrec.
+Qed.
+
+(* ------------------------------------------------------------------ *)
+(* The theorems about threshold_support                                *)
+(* ------------------------------------------------------------------ *)
+
+Theorem thr_support_canonical ep l :
+  canonical ep -> strictly_increasing (map fst l) ->
+  Forall (fun x => mem x ep = true) (map fst l) ->
+  canonical (threshold_support ep l).
+Proof.
+  intros H1 H2 H3. destruct (threshold_support_iv ep l H1 H2 H3) as [HI ->].
+  destruct l as [|[x kx] r]; [exact I|].
+  apply (canon_canonical _ (2 * fst (hd (0, 0) ep) - 1)).
+  apply thr_iv_canon; [exact HI|]. unfold entry_ok, lo_ok. left. lia.
+Qed.
+
+Theorem thr_contains_kept ep l :
+  canonical ep -> strictly_increasing (map fst l) ->
+  Forall (fun x => mem x ep = true) (map fst l) ->
+  Forall (fun x => mem (2 * x) (threshold_support ep l) = true) (kept_times l).
+Proof.
+  intros H1 H2 H3. destruct (threshold_support_iv ep l H1 H2 H3) as [HI ->].
+  apply thr_iv_contains; [exact HI|exact I].
+Qed.
+
+Theorem thr_excludes_rejected ep l :
+  canonical ep -> strictly_increasing (map fst l) ->
+  Forall (fun x => mem x ep = true) (map fst l) ->
+  Forall (fun p => snd p = false -> mem (2 * fst p) (threshold_support ep l) = false) l.
+Proof.
+  intros H1 H2 H3. destruct (threshold_support_iv ep l H1 H2 H3) as [HI ->].
+  apply thr_iv_excludes; [exact HI|exact I].
+Qed.
+
+Theorem thr_inside_old ep l :
+  canonical ep -> strictly_increasing (map fst l) ->
+  Forall (fun x => mem x ep = true) (map fst l) ->
+  Forall (fun iv => exists old, In old ep /\ 2 * fst old <= fst iv /\ snd iv <= 2 * snd old)
+         (threshold_support ep l).
+Proof.
+  intros H1 H2 H3. destruct (threshold_support_iv ep l H1 H2 H3) as [HI ->].
+  apply thr_iv_inside; [exact HI|exact I].
+Qed.
+
+Lemma filter_mem_kept (D : iset) l :
+  Forall (fun p => mem (2 * fst p) D = snd p) l ->
+  filter (fun x => mem (2 * x) D) (map fst l) = kept_times l.
+Proof.
+  unfold kept_times. induction l as [|[x k] r IH]; intros H; [reflexivity|].
+  inversion H as [|? ? Hx Hr]; subst. cbn [fst snd] in Hx.
+  cbn [map fst filter snd]. rewrite Hx, (IH Hr). destruct k; reflexivity.
+Qed.
+
+Theorem thr_restrict_reproduces ep l :
+  canonical ep -> strictly_increasing (map fst l) ->
+  Forall (fun x => mem x ep = true) (map fst l) ->
+  filter (fun x => mem (2 * x) (threshold_support ep l)) (map fst l) = kept_times l.
+Proof.
+  intros H1 H2 H3. apply filter_mem_kept.
+  pose proof (thr_contains_kept ep l H1 H2 H3) as Hk.
+  pose proof (thr_excludes_rejected ep l H1 H2 H3) as Hr.
+  rewrite Forall_forall in *. intros [z k] Hin. cbn [fst snd]. destruct k.
+  - apply Hk. unfold kept_times. apply in_map_iff. exists (z, true). split; [reflexivity|].
+    apply filter_In. split; [exact Hin|reflexivity].
+  - apply (Hr _ Hin). reflexivity.
+Qed.
+
+Theorem thr_midpoint_end ep l :
+  canonical ep -> strictly_increasing (map fst l) ->
+  Forall (fun x => mem x ep = true) (map fst l) ->
+  forall pre x y post, l = pre ++ (x, true) :: (y, false) :: post ->
+  (exists iv, In iv ep /\ inb x iv = true /\ inb y iv = true) ->
+  In (x + y) (map snd (threshold_support ep l)).
+Proof.
+  intros H1 H2 H3 pre x y post -> Hiv.
+  destruct (threshold_support_iv ep _ H1 H2 H3) as [HI ->].
+  apply thr_iv_mid_end; assumption.
+Qed.
+
+Theorem thr_midpoint_start ep l :
+  canonical ep -> strictly_increasing (map fst l) ->
+  Forall (fun x => mem x ep = true) (map fst l) ->
+  forall pre x y post, l = pre ++ (x, false) :: (y, true) :: post ->
+  (exists iv, In iv ep /\ inb x iv = true /\ inb y iv = true) ->
+  In (x + y) (map fst (threshold_support ep l)).
+Proof.
+  intros H1 H2 H3 pre x y post -> Hiv.
+  destruct (threshold_support_iv ep _ H1 H2 H3) as [HI ->].
+  apply thr_iv_mid_start; assumption.
+Qed.
+
+(* sanity: the hypotheses are satisfiable and the conclusions are not vacuous *)
+Example thr_example :
+  threshold_support [(0, 100); (200, 300); (400, 500)]
+    [(5, true); (210, false); (250, true); (260, true); (270, false); (410, false); (420, true)]
+  = [(0, 200); (460, 530); (830, 840)].
+Proof. vm_compute. reflexivity. Qed.
+
+Print Assumptions thr_support_canonical.
+Print Assumptions thr_contains_kept.
+Print Assumptions thr_excludes_rejected.
+Print Assumptions thr_inside_old.
+Print Assumptions thr_restrict_reproduces.
+Print Assumptions thr_midpoint_end.
+Print Assumptions thr_midpoint_start.
+Print Assumptions dropna_contains_kept.
+Print Assumptions dropna_excludes_rejected.
+Print Assumptions dropna_canonical.
+Print Assumptions dropna_refuted_when_close.
